@@ -115,6 +115,179 @@ def check_unreadable_dir(ctx, rng):
     ctx.oracle(not ((tr | fl) & before), case, {"why": "an object already present was reported", "reported": sorted((tr | fl) & before)})
 
 
+# ------------------------------------------------------------------ a source spanning several filesystems
+#
+# A ReferenceHashFileDB (what dvc stages a workspace into) holds *references*: an object is wherever the file it was taken
+# of lives. The objects of one request may therefore sit on several filesystems (a local directory, one or more in-memory
+# or remote ones, the reference store's own filesystem for the directory objects written into it), and `_add` sends one
+# batch per filesystem: the failures of *every* batch belong in the result.
+
+
+def gen_multi_fs(rng):
+    uni = stores.Universe(rng, nfiles=rng.randrange(3, 9), ntrees=rng.randrange(0, 4))
+    files, trees = list(uni.files), list(uni.trees)
+    mounts = [rng.choice(["local", "memory"]) for _ in range(rng.randrange(2, 5))]
+    # where each object lives: the index of a mount, or -1 = physically inside the reference store (directory objects only,
+    # the way a staged directory is kept)
+    place = {f: rng.randrange(len(mounts)) for f in files}
+    for t in trees:
+        place[t] = -1 if rng.random() < 0.4 else rng.randrange(len(mounts))
+    verify = rng.random() < 0.4
+    dest = set()
+    for t in trees:
+        if rng.random() < 0.2:
+            dest.add(t)
+            dest.update(uni.listing(t))
+    for f in files:
+        if rng.random() < 0.15:
+            dest.add(f)
+    shallow = rng.random() < 0.6
+    req_dirs = [t for t in trees if rng.random() < 0.8]
+    req = list(req_dirs)
+    if shallow:
+        for t in req_dirs:
+            req += [f for f in uni.listing(t) if f not in req]
+    req += [f for f in files if f not in req and rng.random() < (0.4 if req_dirs else 0.85)]
+    if not req:
+        req.append(files[0])
+    rng.shuffle(req)
+    cand = sorted(uni.closure(req) - dest)
+    p = rng.choice([0.0, 0.15, 0.3, 0.5])
+    fail, dangling, stale = [], [], []
+    for o in cand:
+        if rng.random() >= p:
+            continue
+        kinds = ["upload"]
+        if not o.endswith(".dir") and place[o] >= 0:
+            kinds.append("dangling")  # the referenced file is gone by the time of the transfer
+        if verify:
+            kinds += ["stale", "stale"]  # the referenced file was modified after it had been referenced
+        {"upload": fail, "dangling": dangling, "stale": stale}[rng.choice(kinds)].append(o)
+    return {
+        "multi_fs": True,
+        "files": {k: v.decode() for k, v in uni.files.items()},
+        "trees": {d: {"/".join(k): v for k, v in e.items()} for d, e in uni.trees.items()},
+        "mounts": mounts, "place": place, "dest": sorted(dest), "dest_local": rng.random() < 0.5, "req": req, "shallow": shallow,
+        "verify": verify, "fail": fail, "dangling": dangling, "stale": stale, "req_form": rng.choice(["set", "set", "list", "generator"]),
+    }, uni
+
+
+def _rebuild_multi_fs(sc):
+    uni = stores.Universe.__new__(stores.Universe)
+    uni.files = {k: v.encode() for k, v in sc["files"].items()}
+    uni.trees = {d: {tuple(k.split("/")): v for k, v in e.items()} for d, e in sc["trees"].items()}
+    uni.tree_raw = {d: stores.tree_bytes(e) for d, e in uni.trees.items()}
+    return uni
+
+
+def check_multi_fs(ctx, sc, uni):
+    """one transfer out of a reference store whose objects are spread over several filesystems, some uploads failing
+    (injected), some referenced files gone, some modified since (verify). Returns (case, observation, model request): the
+    caller batches the model's answers."""
+    import json
+    import os
+
+    from dvc_objects.fs import LocalFileSystem, MemoryFileSystem
+
+    from dvc_data.hashfile.db.reference import ReferenceHashFileDB
+    from dvc_data.hashfile.transfer import transfer
+
+    from .util import safe_call
+
+    root = ctx.mkdtemp()
+    mounts = []
+    for i, kind in enumerate(sc["mounts"]):
+        if kind == "local":
+            fs, base = LocalFileSystem(), os.path.join(root, "data%d" % i)
+            os.makedirs(base)
+        else:
+            fs, base = MemoryFileSystem(global_store=False), "/data%d" % i
+            fs.makedirs(base, exist_ok=True)
+        mounts.append((fs, base))
+    src = ReferenceHashFileDB(MemoryFileSystem(global_store=False), "/refs")
+    src.fs.makedirs("/refs", exist_ok=True)
+    for o in uni.all_oids():
+        data = uni.data(o)
+        if o in sc["stale"]:
+            data = json.dumps(json.loads(data), indent=1).encode() if o.endswith(".dir") else b"MODIFIED-" + data
+        m = sc["place"][o]
+        if m < 0:
+            p = src.oid_to_path(o)
+            src.fs.makedirs(src.fs.parent(p), exist_ok=True)
+            src.fs.pipe_file(p, data)
+            continue
+        fs, base = mounts[m]
+        p = base + "/" + ("tree-" if o.endswith(".dir") else "file-") + o[:10]
+        if o not in sc["dangling"]:
+            fs.pipe_file(p, data)
+        src.add(p, fs, o)
+    dest = stores.make_odb(os.path.join(root, "dest"), local=sc["dest_local"])
+    stores.populate(dest, uni, sc["dest"])
+
+    def snapshot():
+        out = {}
+        for i, (fs, base) in enumerate(mounts + [(src.fs, "/refs")]):
+            for p in sorted(fs.find(base)):
+                out["%d:%s" % (i, p[len(base):])] = fs.cat_file(p)
+        fss = [fs for fs, _ in mounts]
+        refs = {o: (h.path, fss.index(h.fs) if h.fs in fss else -1) for o, h in src._obj_cache.items()}
+        return out, refs
+
+    src_before = snapshot()
+    before = set(stores.listing_of(dest.path))
+    faults = stores.Faults(dest, sc["fail"])
+    ids = [stores.hi(o) for o in sc["req"]]
+
+    def f():
+        req = {"set": set(ids), "list": ids, "generator": (h for h in ids)}[sc["req_form"]]
+        with faults.active():
+            return transfer(src, dest, req, verify=sc["verify"], shallow=sc["shallow"])
+
+    kind, res = safe_call(f)
+    after = set(stores.listing_of(dest.path))
+    src_after = snapshot()
+    intact_bad = stores.intact_violations(dest.path)
+    dangling_dirs = stores.closed_violations(dest.path)
+
+    case = dict(sc)
+    wanted = sorted(uni.closure(sc["req"])) if not sc["shallow"] else sorted(set(sc["req"]))
+    new = sorted(o for o in wanted if o not in before)
+    failing = sorted(set(sc["fail"]) | set(sc["dangling"]) | set(sc["stale"]))
+    # how many filesystems the new objects of the request come from, and whether a failing one shares the request with others
+    spread = len({sc["place"][o] for o in new})
+    ctx.case(case, nontrivial=bool(new) and bool(failing) and spread > 1)
+    ctx.count("multi_fs: new objects on %d filesystems, %s" % (min(spread, 3), "some failing" if set(failing) & set(new) else "none failing"))
+    if kind != "ok":
+        ctx.oracle(False, case, {"why": "transfer out of a reference store raised", "obs": res})
+        return None
+    tr, fl = set(stores.vals(res.transferred)), set(stores.vals(res.failed))
+    d = {"transferred": sorted(tr), "failed": sorted(fl), "new": new, "dest_after": sorted(after), "expected_to_fail": failing}
+    ctx.oracle(tr | fl == set(new) and not (tr & fl), case, {"why": "transferred/failed do not partition the new objects", **d})
+    ctx.oracle(tr <= after, case, {"why": "an object reported as transferred is absent from the destination", "absent": sorted(tr - after), **d})
+    ctx.oracle(not [o for o in intact_bad if o in tr or o not in before], case,
+               {"why": "an object in the destination does not have the bytes its name promises", "mismatching": intact_bad, **d})
+    for o in wanted:
+        if o not in after:
+            ctx.oracle(o in fl, case, {"why": "a requested object is absent afterwards but not reported as failed", "object": o, **d})
+    sent = {e[0] for e in faults.events}
+    ctx.oracle(not (sent & before) and not ((tr | fl) & before), case,
+               {"why": "an object already present was re-sent or reported", "resent": sorted(sent & before), **d})
+    ctx.oracle(not dangling_dirs, case, {"why": "a directory object arrived without all of its files", "dangling": dangling_dirs[:3], **d})
+    ctx.oracle(src_before == src_after, case,
+               {"why": "the source (the referenced files or the references) was modified",
+                "changed": sorted(k for k in set(src_before[0]) | set(src_after[0]) if src_before[0].get(k) != src_after[0].get(k))})
+    obs = {"transferred": sorted(tr), "failed": sorted(fl), "dest": sorted(after), "index": None}
+    req = {"op": "transfer", "L": uni.L_json(), "src": sorted(uni.all_oids()), "dest": sorted(before), "req": sc["req"],
+           "shallow": sc["shallow"], "fails": failing, "index": None, "dir_order": faults.dir_order}
+    return case, obs, req
+
+
+def run_multi_fs(ctx, scenarios):
+    pend = [r for r in (check_multi_fs(ctx, sc, uni) for sc, uni in scenarios) if r is not None]
+    for (case, obs, _), ans in zip(pend, ctx.driver.batch([r[2] for r in pend])):
+        ctx.corr("Transfer.transferWith∘compareStatus~transfer() out of a reference store spanning several filesystems", case, obs, xfer.canon_model(ans))
+
+
 def run_cases(ctx, n):
     for i in range(n):
         sc, uni = xfer.gen_scenario(ctx.rng, want_verify=(i % 3 == 0) or None)
@@ -125,13 +298,14 @@ def run(ctx):
     ctx.rule = (
         "requests of files and directory objects (shallow or expanded) over stores with arbitrary initial contents, random "
         "failing uploads, corrupt sources under verify (every third scenario forces verify), directories with files missing on both "
-        "sides, both store classes, with/without remote index; requests holding a directory object that the source reports present but whose listing cannot be read at transfer time (damaged yet trusted, or vanishing between the status query and the copy loop): oracle-only. non-trivial = something new to send and a failing or corrupt object; "
+        "sides, both store classes, with/without remote index; requests holding a directory object that the source reports present but whose listing cannot be read at transfer time (damaged yet trusted, or vanishing between the status query and the copy loop): oracle-only. transfers out of a reference store (ReferenceHashFileDB) whose objects are spread over 2-4 filesystems (local directories, in-memory ones, directory objects kept in the reference store itself), with injected upload failures, referenced files that are gone and - under verify - referenced files modified since (counted as multi_fs: ...; non-trivial = new objects on more than one filesystem and a failing one), every oracle of the main family plus the model comparison. non-trivial = something new to send and a failing or corrupt object; "
         "distinct = sha256 of the scenario"
     )
     ctx.assumptions = ["a corrupt unprotected object may be dropped from a *local* source by the existence query (mandated by C07)"]
     run_cases(ctx, ctx.n(260, 3000))
     for _ in range(ctx.n(40, 400)):
         check_unreadable_dir(ctx, ctx.rng)
+    run_multi_fs(ctx, [gen_multi_fs(ctx.rng) for _ in range(ctx.n(40, 600))])
 
 
 def search(ctx):
@@ -142,5 +316,7 @@ def replay(ctx, payload):
     sc = payload.get("case") or payload.get("diverging_case")
     if "unreadable_dir" in sc:
         run(ctx)
+    elif "multi_fs" in sc:
+        run_multi_fs(ctx, [(sc, _rebuild_multi_fs(sc))])
     else:
         check(ctx, sc, xfer.rebuild(sc))
